@@ -18,7 +18,7 @@ use std::path::Path;
 pub static SPEC: PropSpec = PropSpec {
     id: "C20",
     level: "exploration",
-    rule: "queries = (text, line, col, kind) with kind in {hover, dot, colon-colon}; texts: corpus files, prefixes cut at token boundaries, 1-3-edit token/char mutations, and templated programs with known types/members; positions: token boundaries, after every '.' and '::', one past line ends, past EOF, u32::MAX; a query is non-trivial when its text differs from every corpus file or it is an agreement query; distinct by hash of (text, position, kind)",
+    rule: "queries = (text, line, col, kind) with kind in {hover, dot, colon-colon}; texts: corpus files, prefixes cut at token boundaries, 1-3-edit token/char mutations, templated programs with known types/members, and a two-package project in which Main and the imported package define equally named types with different members (completion after paths of 1-3 qualifiers); positions: token boundaries, after every '.' and '::', one past line ends, past EOF, u32::MAX; a query is non-trivial when its text differs from every corpus file or it is an agreement query; distinct by hash of (text, position, kind)",
     eval_counter: "queries",
     assumptions: &[
         "hover agreement is checked against the type written in an annotation (binder, later use, and an unannotated alias) and, for 32 expression positions (callee paths of UFCS / inherent / dot / generic calls, field names, constructors, literals, arguments), against the declared signature with Self and type parameters instantiated",
@@ -30,7 +30,7 @@ pub static SPEC: PropSpec = PropSpec {
     case_cpu_s: 20,
     shards: 0,
     run,
-    floors: &[("queries", 20_000, 1_000_000), ("hover_agreement_checked", 200, 5_000), ("dot_items_checked", 50, 1_000), ("colon_items_checked", 50, 1_000), ("insertions_typechecked", 50, 1_000)],
+    floors: &[("queries", 20_000, 1_000_000), ("hover_agreement_checked", 200, 5_000), ("dot_items_checked", 50, 1_000), ("colon_items_checked", 50, 1_000), ("insertions_typechecked", 50, 1_000), ("qualified_path_nonempty_answers", 100, 3_000)],
     finish: None,
 };
 
@@ -545,6 +545,106 @@ fn agreement_colon(case: &mut Case, rng: &mut Rng) {
     case.sample(json!({"workload":"colon_agreement","namespace": ns.ns, "prefix": prefix, "offered": items.iter().map(|i| i.name.clone()).collect::<Vec<_>>()}));
 }
 
+/// completion after a path of TWO or more qualifiers (`Lib::Color::`, `Shape::Circle::`): Main and the imported
+/// package define equally named types with different members, so an answer computed from part of the path shows
+struct QNamespace {
+    path: &'static str,
+    members: &'static [&'static str],
+    nullary_values: &'static [&'static str],
+}
+const Q_LIB: &str = "package Lib\n\nenum Color { Red, Green(int32) }\n\nstruct Pt { x: int32 }\n\nimpl Pt {\n    fn libget(self: Pt) -> int32 { self.x }\n}\n\ntrait Show {\n    fn libshow(Self) -> int32;\n}\n\nenum Shape { Round(int32), Sq }\n\nstruct Round { r: int32 }\n\nimpl Round {\n    fn librad(self: Round) -> int32 { self.r }\n}\n";
+const Q_MAIN_DECLS: &str = "package Main\nimport Lib\n\nenum Color { Cyan, Magenta }\n\nimpl Color {\n    fn code(self: Color) -> int32 { 1 }\n}\n\nstruct Pt { y: int32 }\n\nimpl Pt {\n    fn mainget(self: Pt) -> int32 { self.y }\n}\n\ntrait Show {\n    fn mainshow(Self) -> int32;\n}\n\nstruct Sq { side: int32 }\n\nimpl Sq {\n    fn area(self: Sq) -> int32 { self.side }\n}\n\nenum Fig { Sq(int32), Dot }\n\n";
+const Q_NAMESPACES: &[QNamespace] = &[
+    QNamespace { path: "Lib::Color", members: &["Red", "Green"], nullary_values: &["Red"] },
+    QNamespace { path: "Lib::Pt", members: &["libget"], nullary_values: &[] },
+    QNamespace { path: "Lib::Show", members: &["libshow"], nullary_values: &[] },
+    QNamespace { path: "Lib::Shape", members: &["Round", "Sq"], nullary_values: &["Sq"] },
+    // nothing lives under a variant, whatever else is called like it
+    QNamespace { path: "Lib::Shape::Round", members: &[], nullary_values: &[] },
+    QNamespace { path: "Lib::Shape::Sq", members: &[], nullary_values: &[] },
+    QNamespace { path: "Fig::Sq", members: &[], nullary_values: &[] },
+    QNamespace { path: "Lib::Round", members: &["librad"], nullary_values: &[] },
+    QNamespace { path: "Color", members: &["Cyan", "Magenta", "code"], nullary_values: &["Cyan"] },
+    QNamespace { path: "Main::Color", members: &["Cyan", "Magenta", "code"], nullary_values: &["Cyan"] },
+    QNamespace { path: "Pt", members: &["mainget"], nullary_values: &[] },
+    QNamespace { path: "Sq", members: &["area"], nullary_values: &[] },
+];
+
+fn q_root() -> std::path::PathBuf {
+    let root = capi::scratch_dir().join("c20-qualified");
+    if !root.join("Lib/lib.gom").is_file() {
+        let _ = std::fs::create_dir_all(root.join("Lib"));
+        let _ = std::fs::write(root.join("Lib/lib.gom"), Q_LIB);
+    }
+    root
+}
+
+fn agreement_colon_qualified(case: &mut Case, rng: &mut Rng) {
+    let ns = &Q_NAMESPACES[rng.below(Q_NAMESPACES.len())];
+    let prefix: String = if ns.members.is_empty() || rng.chance(1, 2) {
+        String::new()
+    } else {
+        let w = rng.pick(ns.members);
+        w[..1 + rng.below(w.len())].to_string()
+    };
+    let main_path = q_root().join("main.gom");
+    let mut src = String::from(Q_MAIN_DECLS);
+    src.push_str(&format!("fn main() {{\n    let z = {}::", ns.path));
+    let head_len = src.len();
+    src.push_str(&prefix);
+    let cursor = src.len();
+    let tail = ";\n    ()\n}\n";
+    src.push_str(tail);
+    runner::note_input(&src);
+    let (l, c) = line_col(&src, cursor);
+    case.count("queries", 1);
+    case.count("queries_agreement", 1);
+    case.count("qualified_path_queries", 1);
+    case.nontrivial(hash_str(&src));
+    let items = match runner::guard(|| query::colon_colon_completions(&main_path, &src, l, c)) {
+        Ok(v) => v.unwrap_or_default(),
+        Err(pn) => {
+            case.violation(runner::panic_signature(&pn), format!("colon_colon_completions panicked at {}", pn.site), json!({"input": src, "line": l, "col": c}));
+            return;
+        }
+    };
+    if !items.is_empty() {
+        case.count("qualified_path_nonempty_answers", 1);
+    }
+    for it in &items {
+        case.count("colon_items_checked", 1);
+        if !ns.members.contains(&it.name.as_str()) {
+            case.violation(
+                format!("colon-offers-nonmember:{}:{}", ns.path, it.name),
+                format!("completion after `{}::` offers `{}` which does not exist there", ns.path, it.name),
+                json!({"input": src, "library": Q_LIB, "line": l, "col": c, "item": it.name}),
+            );
+            continue;
+        }
+        if !it.name.starts_with(&prefix) {
+            case.violation(format!("colon-ignores-prefix:{}", ns.path), format!("completion `{}` does not start with the typed prefix `{}`", it.name, prefix), json!({"input": src, "line": l, "col": c, "item": it.name}));
+        }
+        if ns.nullary_values.contains(&it.name.as_str()) {
+            let text = format!("{}{}{}", &src[..head_len], it.name, tail);
+            case.count("insertions_typechecked", 1);
+            let mp = main_path.clone();
+            if let Ok(Ok((_t, _g, d))) = runner::guard(|| compiler::pipeline::pipeline::typecheck_with_packages(&mp, &text)) {
+                let errs: Vec<String> = d.iter().filter(|x| x.severity() == diagnostics::Severity::Error).map(|x| x.message().to_string()).collect();
+                if !errs.is_empty() {
+                    case.violation(
+                        format!("colon-insertion-ill-typed:{}:{}", ns.path, it.name),
+                        format!("inserting offered completion `{}::{}` does not type-check: {}", ns.path, it.name, util::truncate(&errs.join("; "), 200)),
+                        json!({"input": src, "library": Q_LIB, "inserted": text, "errors": errs}),
+                    );
+                }
+            }
+        }
+    }
+    if rng.chance(1, 8) {
+        case.sample(json!({"workload":"colon_agreement_qualified","namespace": ns.path, "prefix": prefix, "offered": items.iter().map(|i| i.name.clone()).collect::<Vec<_>>()}));
+    }
+}
+
 fn run(ctx: &mut Ctx) {
     if let Some(rep) = ctx.replay_input.clone() {
         let d = &rep["record"]["detail"];
@@ -565,6 +665,7 @@ fn run(ctx: &mut Ctx) {
         ctx.case(&format!("hover_agree_expr/{}/{}", ctx.shard, i), |c| agreement_hover_exprs(c, &mut rng));
         ctx.case(&format!("dot_agree/{}/{}", ctx.shard, i), |c| agreement_dot(c, &mut rng));
         ctx.case(&format!("colon_agree/{}/{}", ctx.shard, i), |c| agreement_colon(c, &mut rng));
+        ctx.case(&format!("colon_agree_qualified/{}/{}", ctx.shard, i), |c| agreement_colon_qualified(c, &mut rng));
     }
     // Part A: corpus verbatim with many positions
     for (i, (name, text)) in corpus.iter().enumerate() {
